@@ -64,9 +64,23 @@ def generate(rng, tier):
         # big streams
         for i in range(8):
             cases.append(session_case(rng, special_key(rng), rbytes(rng, 1 << 20), "1MiB-stream"))
+    cases += sibling_key_cases(rng, "v")
     if tier == "thorough":
         cases += step_table_cases(rng, "v")
     return cases
+
+def sibling_key_cases(rng, exp):
+    """objects built one after the other on one thread from session keys that differ in a single byte, at each of the
+    40 positions (every byte of the session key matters, and nothing is remembered from the previous object)"""
+    out = []
+    K = rbytes(rng, 40)
+    out.append(session_case(rng, K, rbytes(rng, 48), "sibling-key-base", exp))
+    for i in range(40):
+        k2 = bytearray(K); k2[i] ^= rng.choice([1, 0x80, 0xff])
+        out.append(session_case(rng, bytes(k2), rbytes(rng, 48), "sibling-key-one-byte-differs", exp))
+        if i % 8 == 7:
+            out.append(session_case(rng, K, rbytes(rng, 48), "sibling-key-base", exp))
+    return out
 
 def step_table_cases(rng, exp):
     """full step table (every position x previous byte x input byte, both directions), digest on both sides;
